@@ -224,6 +224,12 @@ def r3_array_values_by_position(ctx, rid):
                 if isinstance(a, ast.For) and any(isinstance(x, ast.Name) and x.id == idx for x in ast.walk(a.target)):
                     loop = a
                     break
+                if isinstance(a, (ast.ListComp, ast.GeneratorExp, ast.SetComp, ast.DictComp)):
+                    # `[(n, val[i] if per_node else val) for i, n in enumerate(nodes)]`: the generator plays the loop
+                    g_ = next((g for g in a.generators if any(isinstance(x, ast.Name) and x.id == idx for x in ast.walk(g.target))), None)
+                    if g_ is not None and not g_.ifs:
+                        loop = g_
+                        break
             lst = None
             if loop is not None and isinstance(loop.iter, ast.Call) and call_name(loop.iter) == "enumerate" and loop.iter.args \
                     and isinstance(loop.target, ast.Tuple) and isinstance(loop.target.elts[0], ast.Name) and loop.target.elts[0].id == idx \
@@ -262,12 +268,35 @@ def r3_array_values_by_position(ctx, rid):
                         ok_size = True
                     if isinstance(side, ast.Call) and call_name(side) == "len" and side.args and same_list(side.args[0]):
                         ok_size = True
+            # the positions are those of the FINAL list of addressed nodes: a list of (node, value) pairs that is narrowed after the values
+            # were distributed by position gives entry i to another node than the i-th addressed one
+            narrowed = None
+            if not isinstance(loop, ast.stmt):
+                comp_ = next((a for a in _anc(anchor) if isinstance(a, (ast.ListComp, ast.GeneratorExp))), None)
+                st_ = comp_
+                from engine.srcmodel import parent as _par
+                while st_ is not None and not isinstance(st_, ast.stmt):
+                    st_ = _par(st_)
+                if isinstance(st_, ast.Assign) and len(st_.targets) == 1 and isinstance(st_.targets[0], ast.Name):
+                    pairs_name = st_.targets[0].id
+                    for later in walk_shallow(f.node):
+                        if isinstance(later, (ast.ListComp, ast.GeneratorExp)) and later is not comp_ and getattr(later, "lineno", 0) > st_.lineno \
+                                and any(isinstance(g.iter, ast.Name) and g.iter.id == pairs_name and g.ifs for g in later.generators):
+                            narrowed = later
+                        if isinstance(later, ast.Call) and call_name(later) == "filter" and len(later.args) == 2 and isinstance(later.args[1], ast.Name) \
+                                and later.args[1].id == pairs_name and getattr(later, "lineno", 0) > st_.lineno:
+                            narrowed = later
+            if ok_size and narrowed is not None:
+                ctx.violation(rid, f0, narrowed, f"the values are distributed by position over `{ast.unparse(lst)[:40]}` and the resulting pairs are narrowed "
+                                                 f"afterwards (`{ast.unparse(narrowed)[:70]}`): the array is sized and indexed against nodes that are not "
+                                                 f"addressed, so entry i does not reach the i-th addressed node", label=label)
+                continue
             if ok_size:
                 ctx.ok(rid, f0, anchor, f"value array indexed by the position counter of `{ast.unparse(lst)[:40]}`, size compared with its length",
-                       {"loop": norm(loop), "inlined_helpers": list(f.inlined_helpers)[:6]}, label=label)
+                       {"loop": norm(loop) if isinstance(loop, ast.stmt) else ast.unparse(loop.iter), "inlined_helpers": list(f.inlined_helpers)[:6]}, label=label)
             else:
                 ctx.violation(rid, f0, anchor, f"the array-size test does not compare with the length of the list the values are distributed over",
-                              {"loop": norm(loop), "test": ast.unparse(test)[:160]}, label=label)
+                              {"loop": norm(loop) if isinstance(loop, ast.stmt) else ast.unparse(loop.iter), "test": ast.unparse(test)[:160]}, label=label)
     if n < 2:
         raise AnalysisError(f"{rid}: per-node value distribution idiom found {n} times (2 on the pinned tree)")
 
